@@ -3,7 +3,7 @@ from fractions import Fraction
 import numpy as np
 from ..runner import Acc, HarnessError
 from ..refmodel import Fmt
-from ..common import Fxp, fx, codes, flags, fmt_of, reset_class_state, build, AGED
+from ..common import Fxp, fx, codes, flags, fmt_of, reset_class_state, build, AGED, ENVS
 
 ID = 'C09'
 RULE = ('cases = (format pair, op in {/, //, %}, method raw/repr, rounding of the first operand, code pair with divisor != 0), executed with '
@@ -14,6 +14,7 @@ ASSUMPTIONS = ['optimal result formats as anchored: / -> n_int = x.n_int + y.n_f
                '% -> n_int = max (signed) or min (unsigned), n_frac = max', 'operands hold exact codes (built raw)']
 
 OPS = ('/', '//', '%')
+C09_ENVS = tuple(e for e in ENVS if e != 'cfg:op_method=repr')
 ROUNDS = ('trunc', 'floor', 'around')
 
 
@@ -123,7 +124,7 @@ def judge(acc, fxm, fym, xs, ys, op, method, rnd, shape_mode, part, by='raw'):
     if fl[0] or fl[1]:
         acc.violation('flags', case, '%s %s %s method=%s: overflow/underflow flags %s raised with optimal sizing' % (fxm.dtype, op, fym.dtype, method, fl),
                       {'part': part, 'op': op, 'method': method})
-    elif op != '/' and fl[2]:
+    elif op != '/' and fl[2] and by != 'env:flagged':
         acc.violation('flags', case, '%s %s %s method=%s: exact operation flagged inexact' % (fxm.dtype, op, fym.dtype, method),
                       {'part': part, 'op': op, 'method': method})
     acc.sample(dict(case, xs=list(xs)[:3], ys=list(ys)[:3]), 1)
@@ -319,6 +320,7 @@ def run_shard(sh):
         for fym in fs:
             ys = list(range(fym.lo, fym.hi + 1))
             hows = AGED if max(fxm.n_word, fym.n_word) <= 2 else (AGED[(sh['i'] + fs.index(fym)) % len(AGED)],)
+            hows = tuple(hows) + tuple('env:' + e for e in (C09_ENVS if max(fxm.n_word, fym.n_word) <= 2 else (C09_ENVS[(sh['i'] + 3 * fs.index(fym)) % len(C09_ENVS)],)))
             judge_all(acc, fxm, fym, xs, ys, 'S', scalars=(fxm.n_word <= sh['ks'] and fym.n_word <= sh['ks']), aged=hows)
             judge_inplace(acc, fxm, fym, 'S')
             if fxm.n_word <= 3 and fym.n_word <= 3:
